@@ -159,7 +159,11 @@ def run(ctx):
         "beyond the pipeline (Python indexing, trusted).")
     ctx.assume("str.split/replace/startswith, urllib.parse.unquote and re.fullmatch behave as documented")
     run_rules(ctx)
-
+    # R14.8: no behaviour changes at a number fixed in the source (sizes, depths, counts, magnitudes are unbounded in the property's domain)
+    from . import scope as _scope
+    _scope.rule_no_size_thresholds(ctx, 'R14.8', ('validators',), 'JSON-pointer resolution')
+    # R14.9: what a URL with a pointer designates is a function of the URL and the documents: the (memoised) step from URL to value does not read the scope stack (C14-r6m3)
+    _scope.rule_memo_scope_free(ctx, "R14.9")
 
 POINTER_DOC = {
     "a": {"b": [10, 20, {"c": 1}]}, "": "empty-key", "a/b": "slash", "m~n": "tilde", "~1": "tilde-one", "/": "slash-key", "0": "zero-key",
@@ -170,6 +174,9 @@ POINTER_DOC = {
     "nest": {"My%20Type": 7, "My Type": 70, "A": 8, "%41": 80, "lvl": {"x%41": 9, "xA": 10, "x%2541": 11, "": {"": "empty-empty", "k": 12}}, "~0": 13, "~": 14, "a~1b": 15},
     # a member name made of digits only, longer than the interpreter's int/str conversion limit: it is a *name*, never converted
     "digits": {"7" * 5000: "long-digit-key", "12": "twelve"},
+    # member names from every part of Unicode are names like any other: beyond the BMP, controls, separators, noncharacters
+    "uni": {"\U0001f44d": "thumbs-up", "\U00020bb7": "cjk-ext-b", "\U0001d4b3": "math-script", "\uffff": "bmp-last", "\U0010ffff": "last", "\x00": "nul",
+            "\x7f": "del", "\u2028": "line-sep", "\n": "newline", "\t": "tab", "\ud7ff": "before-surrogates", "\ue000": "private-use", "a\U0001f44db": "mixed"},
 }
 POINTERS = ["", "/a", "/a/b", "/a/b/0", "/a/b/2/c", "/a/b/3", "/a/b/-1", "/a/b/01", "/a/b/1e0", "/a/b/ 1", "/a/b/+1", "/a/b/1.0", "/", "//", "/a~1b", "/m~0n",
             "/~01", "/~1", "/0", "/a%20b", "/a+b", "/%C3%A9", "/a%2Fb", "/arr/0/0", "/arr/1/0", "/arr/1", "/s/0", "/n/x", "/00", "/1e0", "/-1",
@@ -180,7 +187,9 @@ POINTERS = ["", "/a", "/a/b", "/a/b/0", "/a/b/2/c", "/a/b/3", "/a/b/-1", "/a/b/0
             "/big/" + "1" * 5000, "/arr/" + "9" * 4400 + "/0",
             "/nest/My%2520Type", "/nest/My%20Type", "/nest/%2541", "/nest/%41", "/nest/lvl/x%2541", "/nest/lvl/x%41", "/nest/lvl/x%252541", "/nest/lvl//", "/nest/lvl//k",
             "/nest/lvl/", "/nest/", "/nest/~00", "/nest/~0", "/nest/a~01b", "/nest/lvl///",
-            "/digits/" + "7" * 5000, "/digits/12", "/digits/" + "7" * 4999, "/digits/012"]
+            "/digits/" + "7" * 5000, "/digits/12", "/digits/" + "7" * 4999, "/digits/012",
+            "/uni/%F0%9F%91%8D", "/uni/\U0001f44d", "/uni/%F0%A0%AE%B7", "/uni/%F0%9D%92%B3", "/uni/%EF%BF%BF", "/uni/%F4%8F%BF%BF", "/uni/%00", "/uni/%7F",
+            "/uni/%E2%80%A8", "/uni/%0A", "/uni/%09", "/uni/%ED%9F%BF", "/uni/%EE%80%80", "/uni/a%F0%9F%91%8Db", "/uni/%F0%9F%91%8E"]
 _MISSING = object()
 
 
